@@ -73,6 +73,9 @@ const std::vector<ReEntry> &reMenu()
              return false; } },
         { "", false, [](const QString &) { return true; } },
         { "^debug: ", false, [](const QString &t) { return t.startsWith(QLatin1String("debug: ")); } },
+        // numbered back-references: the expression needs its capture groups to be numbered
+        { "(ab)\\1", false, [](const QString &t) { return t.contains(QLatin1String("abab")); } },
+        { "^(a|x)\\1$", false, [](const QString &t) { const QString u = stripFinalNewline(t); return u == QLatin1String("aa") || u == QLatin1String("xx"); } },
     };
     return m;
 }
@@ -89,6 +92,7 @@ QJsonObject generate()
         QStringLiteral("xx"), QStringLiteral("x x"), QStringLiteral("ok"), QStringLiteral("look"), QStringLiteral("it is ok."),
         QStringLiteral("debug: x"), QStringLiteral("abc"), QStringLiteral("\n"), QStringLiteral("line1\nline2"), QStringLiteral("ok_"),
         QStringLiteral("done"), QStringLiteral("7"), QStringLiteral("warn"), QStringLiteral("undone\n\n"),
+        QStringLiteral("abab"), QStringLiteral("xabab."), QStringLiteral("aba"), QStringLiteral("aa"), QStringLiteral("ax"),
     };
     QJsonArray pool;
     int np = pick(1, 5);
